@@ -20,6 +20,8 @@ FRAGMENTS = [
     "(" + "d/" * 150 + "f.md)", "(%00)", "(\x00)", "\x00", "\ufeff", "\r", "\r\n", "\u2028", "\x85", "\x0b", "\x0c",
     "\U0001f600", "\u0301", "\u200b", "\xa0", "a" * 200, "\n", "\n\n", "\n\n\n", " ", "  ", "   ",
     "Term\n: Def", ": ", "[ ]", "[x]", "- [ ] ", "=", "--", "(c)", "(tm)", "'", '"', "'q'", '"q"',
+    "[^\u00b2]", "[^\u00b2]: ", "[^\u0661]: ", "[^1]: ", "[^1]", "://[", "<inv://[x>", "(wiki://[x)", "(x://[)", "---\nmyst:\n  ",
+    "url_schemes: [http]\n", "enable_extensions: [", "a: {2020-01-01: x}\n", "---\n",
 ]
 
 
